@@ -243,11 +243,15 @@ def run(tier, seed, replay=None):
                 else:
                     nf = value[0]
                     rep.count("nf:ok")
-                    again = monoidal.Diagram.normal_form(nf, left=left)
-                    if again != nf:
-                        rep.fail("not_idempotent", case, "normal_form(normal_form(d)) != normal_form(d)")
-                    if list(monoidal.Diagram.normalize(nf, left=left)):
-                        rep.fail("normal_form_not_terminal", case, "normalize yields on a normal form")
+                    try:
+                        again = monoidal.Diagram.normal_form(nf, left=left)
+                        if again != nf:
+                            rep.fail("not_idempotent", case, "normal_form(normal_form(d)) != normal_form(d)")
+                        if list(monoidal.Diagram.normalize(nf, left=left)):
+                            rep.fail("normal_form_not_terminal", case, "normalize yields on a normal form")
+                    except Exception as exc:
+                        rep.fail("normal_form_raises:" + err_class(exc), case,
+                                 "normalising the normal form again raised %r" % (exc,))
                     # the normal form is a member of the input's class: normalising IT with the
                     # other preference must give the input's other normal form (canonicity across
                     # a two-call history on the same object)
@@ -262,6 +266,9 @@ def run(tier, seed, replay=None):
                         except NotImplementedError:
                             rep.fail("connected_not_normalised", case,
                                      "NotImplementedError on a connected diagram (other preference)")
+                        except Exception as exc:
+                            rep.fail("normal_form_raises:" + err_class(exc), case,
+                                     "normal_form with the other preference raised %r" % (exc,))
         # ---- canonicity on whole interchanger classes of connected diagrams
         explored = exhaustive = members = 0
         while explored < n_classes:
